@@ -198,6 +198,14 @@ func c15Child(a *ChildArgs) {
 			{"replace-into", "REPLACE INTO t2 ( a , b ) VALUES ( 1 , f ( c ) )", []string{"t2"}, []string{"a", "b", "c"}, []string{"f"}},
 			{"niladic-keywords", "SELECT CURRENT_DATE , CURRENT_TIMESTAMP , current_time , a FROM t WHERE b < LOCALTIMESTAMP", []string{"t"}, []string{"a", "b"}, nil},
 			{"match-against", "SELECT a FROM t WHERE MATCH ( b , c ) AGAINST ( 'x' IN BOOLEAN MODE )", []string{"t"}, []string{"a", "b", "c"}, []string{"MATCH"}},
+			{"cte-delete-body", "WITH moved AS ( DELETE FROM old_orders WHERE created < cutoff ( days ) RETURNING id , total ) INSERT INTO archive ( id , total ) SELECT id , total FROM moved",
+				[]string{"old_orders", "archive", "moved"}, []string{"created", "days", "id", "total"}, []string{"cutoff"}},
+			{"cte-update-insert-bodies", "WITH up AS ( UPDATE t1 SET a = f ( b ) WHERE c IN ( SELECT d FROM u1 ) RETURNING a ) , ins AS ( INSERT INTO v1 ( x ) VALUES ( g ( 1 ) ) RETURNING x ) SELECT a , x FROM up , ins",
+				[]string{"t1", "u1", "v1", "up", "ins"}, []string{"a", "b", "c", "d", "x"}, []string{"f", "g"}},
+			{"ragged-insert", "INSERT INTO audit ( id ) VALUES ( 1 ) , ( 2 , ( SELECT secret FROM vault WHERE h ( k ) = 0 ) ) , ( 3 , 4 , g ( m ) )", []string{"audit", "vault"}, []string{"id", "secret", "k", "m"}, []string{"h", "g"}},
+			{"case-three-arms", "SELECT CASE WHEN a = f1 ( 1 ) THEN g1 ( b ) WHEN c = ( SELECT m FROM w1 ) THEN h1 ( d ) WHEN e THEN ( SELECT n FROM w2 ) ELSE k1 ( 4 ) END FROM t",
+				[]string{"t", "w1", "w2"}, []string{"a", "b", "c", "d", "e", "m", "n"}, []string{"f1", "g1", "h1", "k1"}},
+			{"array-constructor", "SELECT ARRAY [ 1 , f ( a ) , ( SELECT z FROM q ) ] FROM t", []string{"t", "q"}, []string{"a", "z"}, []string{"f"}},
 		} {
 			g := gen.New(rand.New(rand.NewSource(42)), nil)
 			var toks []gen.Tok
@@ -216,6 +224,28 @@ func c15Child(a *ChildArgs) {
 			}
 			a.Rec.Distinct("statements", fx.sql)
 			c15Check(a, "C15/fixed", fx.id, gen.X{Toks: toks}, g.P, 7)
+		}
+		// flat operator chains much longer than any nesting limit: the names written first are as much part of the
+		// statement as the last ones
+		for _, n := range []int{150, 700, 1600} {
+			g := gen.New(rand.New(rand.NewSource(42)), nil)
+			var sb strings.Builder
+			sb.WriteString("SELECT last_col FROM t WHERE EXISTS ( SELECT x FROM audit_log WHERE LOWER ( y ) = 'v' )")
+			g.P.Tables["t"], g.P.Tables["audit_log"] = true, true
+			for _, c := range []string{"last_col", "x", "y"} {
+				g.P.Columns[c], g.P.QColumns[c] = true, true
+			}
+			g.P.Functions["LOWER"] = true
+			for k := 0; k < n; k++ {
+				fmt.Fprintf(&sb, " OR id%d = fn%d ( %d )", k, k%7, k)
+				g.P.Columns[fmt.Sprintf("id%d", k)], g.P.QColumns[fmt.Sprintf("id%d", k)] = true, true
+				g.P.Functions[fmt.Sprintf("fn%d", k%7)] = true
+			}
+			var toks []gen.Tok
+			for _, w := range strings.Fields(sb.String()) {
+				toks = append(toks, gen.Tok{S: w})
+			}
+			c15Check(a, "C15/fixed", fmt.Sprintf("or-chain-%d", n), gen.X{Toks: toks}, g.P, 7)
 		}
 	}
 }
